@@ -3,6 +3,7 @@
 #include "verif.h"
 using namespace ace_time;
 using namespace verif;
+static volatile long g_sink17 = 0;
 int main(int argc, char** argv) {
   Args a = parse_args(argc, argv);
   Counters c;
@@ -36,6 +37,15 @@ int main(int argc, char** argv) {
     }
     { TimePeriod n2 = n; if (n.compareTo(n2) != 0) bad("compareTo-negated-self"); }
     time_period_mutation::negate(n); if (!(n == p)) bad("negate-involution");
+    // the same value built right after another one (2^8 / 2^16 seconds away, its negation): construction is a pure function
+    for (int32_t delta : {65536, -65536, 256, -256, 0}) {
+      int32_t o = delta ? s + delta : -s;
+      if (o < -921599 || o > 921599) continue;
+      TimePeriod other(o); g_sink17 += other.toSeconds();
+      TimePeriod again(s);
+      if (again.toSeconds() != s || !(again == p) || again.compareTo(p) != 0) bad("depends-on-previous-construction");
+      c.add("period_reorder_checks");
+    }
     c.add("period_seconds");
   }
   for (int h = 0; h < 256; h++) for (int m = 0; m < 60; m++) for (int s : {0, 1, 59}) for (int sg : {1, -1}) {
